@@ -156,7 +156,9 @@ def pos_run(case):
         if abs(z2) > m.z_integral_max + 1e-15:
             raise Violation("position controller step %d: height integrator %g leaves its limit %g" % (k, z2, m.z_integral_max), **case)
         R = ref.quat_to_R(qr / np.linalg.norm(qr))
-        if ref.is_rotation(ref.quat_to_R(qr), 1e-6):  # degenerate heading/thrust branches belong to C14
+        # (degenerate heading/thrust branches belong to C14; below the 1e-3 N thrust threshold the attitude is the documented
+        # vertical fallback, so the force direction cannot be recovered from it)
+        if ref.is_rotation(ref.quat_to_R(qr), 1e-6) and nT > 1.01e-3:
             fb = nT * R[:, 2] - (case["trim"] + m.ki_z * z_i) * np.array([0, 0, 1.0])
             nfb = float(np.linalg.norm(fb))
             if nfb > lim * (1 + 1e-9) + 1e-9:
